@@ -4,6 +4,8 @@ import gen as G
 import conv
 
 COQ_IMPORTS = ['Model.DFA', 'Model.NFA', 'Model.NFAOps', 'Judge.C18_judge']
+PDA_FREE = True      # no PDA is involved: the recycling pass runs with GambaTools.pda_epsilon_closure_max_iterations = 3
+LOG_SAFE = True      # no printed output is read back: the recycling pass runs with GambaTools.enable_logging = True
 RULE = ('pairs of random epsilon-NFAs (1-4 states each, alphabet subsets of {a,b}) with disjoint state sets, state names drawn from q0..q9 / p0.. / s,t,u (so that names produced by the identifier generator collide with operand states), '
         'epsilon symbols in {\'\', _, e, ε} and different for the two operands in a third of the cases; operands as built by parse_nfa (defaultdict) and after an earlier nfa_accepts_word call (which creates empty entries); '
         'each of nfa_union, nfa_concatenation, nfa_repetition called with an explicit IdentifierGenerator(k), k in 0..3, and through the shared default generator after 0-3 earlier calls. '
